@@ -34,20 +34,28 @@ ASSUMPTIONS = [
 TRUSTED_BASE = ["pvc (own VC generator: /verif/pvc)", "z3 5.1", "python ast module", "pvc.sympy2z3 for the per-program dependency checks"]
 
 
-def native_model(shape, seed, container="set", cse=True, transcendental=False):
+def native_model(shape, seed, container="set", cse=True, transcendental=False, branchy=False):
     """Real compiled model vs exact sympy evaluation, by name."""
     from replay import shim
     from replay.native import repo_import
 
     n, c, k = shape[0], shape[1], shape[2]
-    sc = scenarios.Scenario(n, c, k, [1], seed=seed, transcendental=transcendental)
+    sc = scenarios.Scenario(n, c, k, [1], seed=seed, transcendental=transcendental, branchy=branchy)
+    transcendental = transcendental or branchy
     problems = []
     try:
         py = shim.install()
         ui = repo_import("formak.ui")
         model = py.compile(sc.ui_model(ui, container), calibration_map=dict(reversed(list(sc.calibration_map.items()))), config={"common_subexpression_elimination": cse})
-        for t in range(2):
-            pt = sc.point(seed + t)
+        from fractions import Fraction
+
+        pts = [sc.point(seed), sc.point(seed + 1)]
+        # the SAME compiled object again at nearby operating points (state kept between calls must not leak)
+        fixed = set(sc.calibration) | {sc.dt}  # calibration values are baked into the compiled model
+        near = {kk: (v * Fraction(1000004, 1000000) if kk not in fixed else v) for kk, v in pts[1].items()}
+        near2 = {kk: (v + Fraction(1, 2**28) if kk not in fixed else v) for kk, v in near.items()}
+        pts += [near, near2, pts[0]]
+        for pt in pts:
             state = model.State(**{s.name: float(pt[s]) for s in sc.state})
             control = model.Control(**{u.name: float(pt[u]) for u in sc.control}) if k else None
             out = model.model(float(pt[sc.dt]), state, control) if k else model.model(float(pt[sc.dt]), state)
@@ -67,6 +75,20 @@ def native_fn(shape, seed, container="set"):
         if problems:
             return problems, sc
     return [], sc
+
+
+def native_branchy(run, pid="C01"):
+    """Bounded: a program with principal-branch / sign sensitive sub-expressions, CSE on and off, evaluated at points outside the
+    principal range - unsound rewriting anywhere in the compile pipeline shows up as a value difference."""
+    fails = 0
+    for cse in (True, False):
+        run.native_runs += 1
+        problems, sc = native_model((2, 1, 1), run.seed, "set", cse, branchy=True)
+        if problems:
+            fails += 1
+            run.findings.append(Finding(f"{pid}.py.native_branch_sensitive_program", "branchy", problems[0], {"language": "python", "inputs": {"shape": [2, 1, 1], "seed": run.seed, "cse": cse, "branchy": True}, "model_definition": sc.describe(), "oracle_verdict": problems[:4]}, True))
+            break
+    run.bounded.append({"what": "real compiled model of a program with asin(sin u), atan(tan u), sqrt(u^2), acos(cos u) terms vs direct evaluation, CSE on and off, inputs beyond the principal range", "bound": "1 program x 2 CSE settings x 2 points", "failures": fails, "counted_as_proved": False})
 
 
 def dependency_checks(run, n_programs):
@@ -122,6 +144,7 @@ def check(run):
     for (c, _), rep in zip(items, run.verify_many(items)):
         triage_generic(run, rep, native_fn, c.key.split(".")[-1])
     dependency_checks(run, 12 if run.tier == "quick" else 60)
+    native_branchy(run, "C01")
     # the dependency obligations are bounded over programs: keep them out of the proof count when undecided
     shapes = [(3, 2, 2), (2, 0, 1), (4, 1, 0), (1, 3, 3)] if run.tier == "thorough" else [(3, 2, 2)]
     fails = 0
@@ -141,7 +164,7 @@ def replay_file(payload):
     inp = payload["inputs"]
     problems = []
     for cse in ([inp["cse"]] if "cse" in inp else [True, False]):
-        p, sc = native_model(tuple(inp["shape"][:3]), inp.get("seed", 0), inp.get("container", "set"), cse)
+        p, sc = native_model(tuple(inp["shape"][:3]), inp.get("seed", 0), inp.get("container", "set"), cse, branchy=inp.get("branchy", False))
         problems += p
     print("replay C01:", problems[:3] or "compiled model equals the symbolic update expressions")
     return not problems
